@@ -357,7 +357,16 @@ pub fn after(id: &AtomicU32, addr: usize, kind: OpKind, so: Ordering, fo: Orderi
         }
     }
     ex.clocks[t][t] += 1;
+    drop(g);
+    // a state-changing operation (RMW, successful CAS, store) may be followed by plain code of this
+    // thread that matters (a copy out of the buffer after giving up a reference, ...): let the others
+    // run in between as well, not only before the next atomic operation
+    if matches!(kind, OpKind::Rmw | OpKind::CasOk | OpKind::Store) && POST_YIELD.load(Ordering::Relaxed) {
+        yield_point();
+    }
 }
+
+pub static POST_YIELD: AtomicBool = AtomicBool::new(true);
 
 // ------------------------------------------------------------------------------------------------
 // allocator hooks
